@@ -37,8 +37,9 @@ def run(chk, ix, tier):
     from .. import rules_order
     rules_order.check_step_order(chk, ix)
     rules_junit.check_illegal_char_table(chk, ix)
+    rules_junit.check_feature_filenames(chk, ix)
     # the test case shows the scenario's FINAL status: a hook failure after the status was read must still end as hook_error (shared with C03)
     from . import common as T
     T.t_scenario(chk, ix, ("R4",))
-    for r, n in (("B1", 1), ("B4", 1), ("J1", 10), ("J2", 10), ("J3", 10), ("J4", 10), ("J5", 1), ("J6", 1), ("J7", 7)):
+    for r, n in (("B1", 1), ("B4", 1), ("J1", 10), ("J2", 10), ("J3", 10), ("J4", 10), ("J5", 1), ("J6", 1), ("J7", 7), ("J8", 3)):
         chk.require_instances(r, n)
